@@ -53,8 +53,15 @@ Section Selector.
     | _ => False
     end.
 
+  (** [cls l] is the token type the lexer gives the label name [l] (Ident, or a keyword type for by / on / json / ...).
+      A name is accepted in selector position when it lexes as Ident, or as anything but a String and is a valid label
+      name (D29). *)
+  Definition lbl_ok (k : ttype) (l : bytes) : bool := ttype_eqb k TIdent || (negb (ttype_eqb k TString) && is_valid_label l).
+
+  Section Cls.
+  Variable cls : bytes -> ttype.
   Definition print_matcher (m : matcher) : list token :=
-    [plain TIdent (m_label m); plain (mop_tok (m_op m)) []; str_tok (m_value m)].
+    [plain (cls (m_label m)) (m_label m); plain (mop_tok (m_op m)) []; str_tok (m_value m)].
 
   Fixpoint print_matchers (ms : list matcher) : list token :=
     match ms with
@@ -65,29 +72,48 @@ Section Selector.
 
   Definition print_selector (ms : list matcher) : list token :=
     plain TOpenBrace [] :: print_matchers ms ++ [plain TCloseBrace []].
+  End Cls.
+
+  Notation as_ident := (fun _ : bytes => TIdent).
 
   Lemma parse_matcher_print m p r : wf_matcher m ->
-    parse_label_matcher {| prev := p; rest := print_matcher m ++ r |} =
-      POk m {| prev := rev (print_matcher m) ++ p; rest := r |}.
+    parse_label_matcher {| prev := p; rest := print_matcher as_ident m ++ r |} =
+      POk m {| prev := rev (print_matcher as_ident m) ++ p; rest := r |}.
   Proof.
     destruct m as [l o v]. unfold wf_matcher. cbn [m_op m_value].
     destruct o; intro H; try contradiction; cbn; try rewrite H; reflexivity.
   Qed.
 
-  Lemma matchers_loop_print ms : forall fuel acc p r, ms <> [] -> Forall wf_matcher ms -> (length ms <= fuel)%nat ->
-    matchers_loop fuel acc {| prev := p; rest := print_matchers ms ++ plain TCloseBrace [] :: r |} =
-      POk (acc ++ ms) {| prev := plain TCloseBrace [] :: rev (print_matchers ms) ++ p; rest := r |}.
+  Lemma ttype_eqb_ident k : ttype_eqb k TIdent = true -> k = TIdent.
+  Proof. destruct k; intro H; try reflexivity; discriminate H. Qed.
+
+  Lemma retype_print cls m p r : lbl_ok (cls (m_label m)) (m_label m) = true ->
+    retype_kw {| prev := p; rest := print_matcher cls m ++ r |} = POk tt {| prev := p; rest := print_matcher as_ident m ++ r |}.
+  Proof.
+    intro H. unfold retype_kw, print_matcher. cbn [app rest prev]. unfold is_ty. cbn [ty text plain].
+    destruct (negb (ttype_eqb (cls (m_label m)) TString) && is_valid_label (m_label m)) eqn:E; [reflexivity|].
+    unfold lbl_ok in H. rewrite E, orb_false_r in H. rewrite (ttype_eqb_ident _ H). reflexivity.
+  Qed.
+
+  Definition wf_lmatcher cls (m : matcher) : Prop := wf_matcher m /\ lbl_ok (cls (m_label m)) (m_label m) = true.
+
+  Lemma matchers_loop_print cls ms : forall fuel acc p r, ms <> [] -> Forall (wf_lmatcher cls) ms -> (length ms <= fuel)%nat ->
+    matchers_loop fuel acc {| prev := p; rest := print_matchers cls ms ++ plain TCloseBrace [] :: r |} =
+      POk (acc ++ ms) {| prev := plain TCloseBrace [] :: rev (print_matchers as_ident ms) ++ p; rest := r |}.
   Proof.
     induction ms as [|m t IH]; intros fuel acc p r Hne Hwf Hf; [congruence|].
-    inversion Hwf as [|? ? Hm Ht]; subst.
+    inversion Hwf as [|? ? [Hm Hl] Ht]; subst.
     destruct fuel as [|f]; [cbn in Hf; lia|].
     destruct t as [|m2 t'].
-    - cbn [print_matchers matchers_loop]. unfold bind at 1.
+    - cbn [print_matchers matchers_loop]. unfold bind at 1. rewrite (retype_print cls m p _ Hl).
+      unfold bind at 1.
       rewrite (parse_matcher_print m p _ Hm).
       cbn. reflexivity.
-    - change (print_matchers (m :: m2 :: t')) with (print_matcher m ++ plain TComma [] :: print_matchers (m2 :: t')).
+    - change (print_matchers cls (m :: m2 :: t')) with (print_matcher cls m ++ plain TComma [] :: print_matchers cls (m2 :: t')).
+      change (print_matchers as_ident (m :: m2 :: t')) with (print_matcher as_ident m ++ plain TComma [] :: print_matchers as_ident (m2 :: t')).
       cbn [matchers_loop]. unfold bind at 1.
-      rewrite <- app_assoc. rewrite (parse_matcher_print m p _ Hm).
+      rewrite <- app_assoc. rewrite (retype_print cls m p _ Hl). unfold bind at 1.
+      rewrite (parse_matcher_print m p _ Hm).
       cbn [app]. unfold bind at 1. unfold next at 1. cbn [rest prev].
       cbn [is_ty ty plain ttype_eqb ttype_code Z.eqb].
       change (ttype_eqb TComma TCloseBrace) with false. change (ttype_eqb TComma TComma) with true. cbn iota.
@@ -96,22 +122,27 @@ Section Selector.
       rewrite rev_app_distr. cbn [rev app]. rewrite <- !app_assoc. cbn [app]. reflexivity.
   Qed.
 
-  Lemma parse_selector_print ms p r fuel : Forall wf_matcher ms -> (length ms < fuel)%nat ->
-    parse_selector fuel {| prev := p; rest := print_selector ms ++ r |} =
-      POk ms {| prev := rev (print_selector ms) ++ p; rest := r |}.
+  (** the first token of a printed, accepted matcher is never '}' *)
+  Lemma lbl_ok_not_close k l : lbl_ok k l = true -> ttype_eqb k TCloseBrace = false \/ is_valid_label l = true.
+  Proof. unfold lbl_ok. destruct (ttype_eqb k TIdent) eqn:E; [apply ttype_eqb_ident in E; subst; left; reflexivity|]. cbn. intro H. apply andb_true_iff in H. right. apply H. Qed.
+
+  Lemma parse_selector_print cls ms p r fuel : Forall (wf_lmatcher cls) ms -> (length ms < fuel)%nat ->
+    Forall (fun m => ttype_eqb (cls (m_label m)) TCloseBrace = false) ms ->
+    parse_selector fuel {| prev := p; rest := print_selector cls ms ++ r |} =
+      POk ms {| prev := rev (print_selector as_ident ms) ++ p; rest := r |}.
   Proof.
-    intros Hwf Hf. destruct fuel as [|f]; [lia|].
+    intros Hwf Hf Hnc. destruct fuel as [|f]; [lia|].
     unfold print_selector. cbn [parse_selector app]. unfold bind at 1, next at 1. cbn [rest prev].
     change (is_ty (plain TOpenBrace []) TOpenParen) with false.
     change (is_ty (plain TOpenBrace []) TOpenBrace) with true. cbn iota.
     destruct ms as [|m t].
     - cbn. reflexivity.
     - unfold bind at 1, peek at 1. cbn [rest].
-      assert (exists t0 rest0, (print_matchers (m :: t) ++ [plain TCloseBrace []]) ++ r = t0 :: rest0 /\ ty t0 = TIdent) as [t0 [rest0 [E Et]]].
+      assert (exists t0 rest0, (print_matchers cls (m :: t) ++ [plain TCloseBrace []]) ++ r = t0 :: rest0 /\ ty t0 = cls (m_label m)) as [t0 [rest0 [E Et]]].
       { destruct t; cbn; eauto. }
-      rewrite E. unfold is_ty. rewrite Et. change (ttype_eqb TIdent TCloseBrace) with false. cbn iota.
+      rewrite E. unfold is_ty. rewrite Et. inversion Hnc as [|? ? Hc ?]; subst. rewrite Hc. cbn iota.
       rewrite <- E. rewrite <- app_assoc. cbn [app].
-      rewrite (matchers_loop_print (m :: t) f [] _ r); [|discriminate|exact Hwf|cbn in *; lia].
+      rewrite (matchers_loop_print cls (m :: t) f [] _ r); [|discriminate|exact Hwf|cbn in *; lia].
       cbn [app]. f_equal. f_equal. cbn [rev]. rewrite rev_app_distr. cbn [rev app]. rewrite <- !app_assoc. reflexivity.
   Qed.
 End Selector.
